@@ -33,7 +33,7 @@ class Gen:
     # swarm: which feature families this module draws from (each p ~ 0.5).
     # `rich=False` keeps the original narrow generator.
     self.prof = {k: (rich and rng.random() < 0.5)
-                 for k in ("hier", "multi_up", "flow", "generic", "alias")}
+                 for k in ("hier", "multi_up", "flow", "generic", "alias", "proto")}
 
   def fresh(self, prefix):
     self.n += 1
@@ -295,8 +295,23 @@ class Gen:
   def gen_error(self):
     """Statements that pytype reports on (ordering / dedup material)."""
     r = self.r
-    k = r.randrange(9)
-    if k == 0:
+    k = r.randrange(14)
+    if k == 9:
+      # several unknown keywords in one call (a list of names in one message)
+      g = self.fresh("g")
+      self.emit("def %s(a=1):" % g)
+      self.emit("  return a")
+      kws = r.sample(["zz", "yy", "xx", "ww", "qq", "kk"], r.randrange(2, 5))
+      self.emit("%s = %s(%s)" % (self.fresh("e"), g, ", ".join("%s=%d" % (w, i) for i, w in enumerate(kws))))
+    elif k == 10:
+      # attribute error on a union of three (the message lists the members)
+      c = self.unknown_cond()
+      self.emit("%s = (1 if %s else ('s' if %s else None)).nope" % (self.fresh("e"), c, self.unknown_cond()))
+    elif k == 11:
+      self.emit("%s = (1 if %s else 's') + [b'x']" % (self.fresh("e"), self.unknown_cond()))
+    elif k in (12, 13):
+      self.gen_protocol(broken=True)
+    elif k == 0:
       self.emit("%s = 'a'.nope" % self.fresh("e"))
     elif k == 1:
       self.emit("%s = 1 + 'a'" % self.fresh("e"))
@@ -538,6 +553,35 @@ class Gen:
       self.emit()
       self.funcs.append((f, 0, False))
 
+  def gen_protocol(self, broken=False):
+    """A Protocol, an implementer and a call through a protocol-typed
+    parameter; `broken` implementers lack several members (the report lists
+    them)."""
+    r = self.r
+    pn, impl, fn = self.fresh("P"), self.fresh("C"), self.fresh("f")
+    members = r.sample(["close", "flush", "put", "keys", "delete", "peek", "size",
+                        "open", "seek"], r.randrange(3, 10))
+    self.emit("class %s(Protocol):" % pn)
+    for m in members:
+      self.emit("  def %s(self): ..." % m)
+    self.emit()
+    have = members if not broken else r.sample(members, r.randrange(0, max(1, len(members) - 2)))
+    self.emit("class %s:" % impl)
+    for m in have:
+      self.emit("  def %s(self):" % m)
+      self.emit("    return %s" % self.scalar())
+    if not have:
+      self.emit("  pass")
+    self.emit()
+    self.bases_of[impl] = []
+    self.classes.append((impl, [], [(m, "inst") for m in have]))
+    self.emit("def %s(x: %s) -> int:" % (fn, pn))
+    self.emit("  return 1")
+    self.emit()
+    self.emit("%s = %s(%s())" % (self.fresh("K" if not broken else "e"), fn, impl))
+    if broken and r.random() < 0.5:
+      self.emit("%s = %s(%s)" % (self.fresh("e"), fn, self.scalar()))
+
   def gen_alias(self):
     r = self.r
     k = r.random()
@@ -572,7 +616,7 @@ class Gen:
   def module(self, size=None):
     r = self.r
     self.emit("import os, sys, math, string")
-    self.emit("from typing import Any, Callable, Dict, Generic, List, Optional, Tuple, TypeVar, Union")
+    self.emit("from typing import Any, Callable, Dict, Generic, List, Optional, Protocol, Tuple, TypeVar, Union")
     self.emit("ANYV: Any = None")
     for up, exports in self.upstream:
       names = sorted(exports.get("consts", []) + exports.get("funcs", []))
@@ -587,7 +631,10 @@ class Gen:
       # this module is (also) somebody's upstream: give it several classes
       for _ in range(r.randrange(2, 4)):
         self.gen_class()
+    proto_at = r.randrange(size) if prof["proto"] else -1
     for stmt_no in range(size):
+      if stmt_no == proto_at:
+        self.gen_protocol(broken=self.errors)
       if self.fork and stmt_no == self.fork[0]:
         import random as _random
         r = self.r = _random.Random(self.fork[1])
@@ -603,6 +650,8 @@ class Gen:
         self.gen_generic()
       elif prof["alias"] and y < 0.1:
         self.gen_alias()
+      elif prof["generic"] and y < 0.16:
+        self.gen_protocol(broken=False)
       elif x < 0.3:
         self.gen_const(private=r.random() < 0.15)
       elif x < 0.5:
@@ -669,6 +718,23 @@ def gen_module(rng, modname, upstream=(), errors=True, size=None, theme=None,
   g = Gen(rng, modname, upstream, errors, theme=theme, fork=fork)
   src = g.module(size)
   return src, g.exports()
+
+
+def type_swap_variant(rng, src):
+  """A variant of a module in which one top-level scalar constant changed its
+  type between int and str: the emitted stub then differs by `int` <-> `str`
+  (the same number of bytes) wherever that constant's type flows. Returns None
+  when the module has no such constant."""
+  import re
+  lines = src.split("\n")
+  idx = [i for i, ln in enumerate(lines)
+         if re.match(r"_?K\d+ = (\d+|'[a-z ]*')$", ln)]
+  if not idx:
+    return None
+  i = rng.choice(idx)
+  name, val = lines[i].split(" = ", 1)
+  lines[i] = "%s = %s" % (name, "'s'" if val[0].isdigit() else "7")
+  return "\n".join(lines)
 
 
 def drop_some_bases(rng, src):
